@@ -73,6 +73,8 @@ class Typer:
                     return self.ty(e.args[0])
             if fn in ("np.array", "np.asarray") and e.args:
                 return self.ty(e.args[0])
+            if isinstance(e.func, ast.Attribute) and e.func.attr == "_get_conv_factor" and not e.args and not e.keywords and dotted(e.func.value):
+                return Ty("pow2", Term.var(self.rename(dotted(e.func.value) + ".n_frac")))
             if fn in ("utils.int_array", "int_array", "int", "np.int64") and e.args:
                 t = self.ty(e.args[0])
                 if t.kind == "code":
@@ -97,8 +99,8 @@ class Typer:
                 t = self.ty(e.args[0])
                 if t.kind != "code":
                     raise Unknown("reduction of non-code %s" % src(e)[:60])
-                if fn in ("np.clip", "utils.clip", "np.maximum", "np.minimum"):
-                    pass
+                if fn in ("np.clip", "utils.clip", "np.maximum", "np.minimum", "np.where"):
+                    self.events.append(("clamp", e))
                 return Ty("code", t.t, t.ops)
             if fn == "np.prod" and e.args:
                 t = self.ty(e.args[0])
